@@ -104,6 +104,22 @@ func tracked(fn *ssa.Function) map[ssa.Value]bool {
 			}
 		}
 	}
+	// boolean results of calls that decide a branch directly ("for step() { }")
+	for _, b := range fn.Blocks {
+		if len(b.Instrs) == 0 {
+			continue
+		}
+		if iff, ok := b.Instrs[len(b.Instrs)-1].(*ssa.If); ok && isBoolType(iff.Cond.Type()) {
+			switch c := iff.Cond.(type) {
+			case *ssa.Call:
+				t[c] = true
+			case *ssa.Extract:
+				if _, ok := c.Tuple.(*ssa.Call); ok {
+					t[c] = true
+				}
+			}
+		}
+	}
 	// local cells of type error (named results, variables captured or spilled): the cell, its loads and the values stored
 	for _, b := range fn.Blocks {
 		for _, in := range b.Instrs {
